@@ -83,6 +83,16 @@ def gen_cases(tier, seed):
     for k in range(0, 4):
         for L in itertools.product(msubs, repeat=k):
             cases.append({"kind": "many", "L": [list(x) for x in L]})
+            if k and len(cases) % 3 == 0:
+                cases.append({"kind": "many", "L": [list(x) for x in L], "ro": True})      # read-only operands
+    for op in ("inter", "union", "diff"):
+        for a in wsubs[:: 2]:
+            for b in wsubs[1:: 2]:
+                cases.append({"kind": "wrapper", "op": op, "a": a, "b": b, "flags": {}, "ro": True})
+    for op in ("inter", "union", "diff"):
+        for A in su:
+            for B in su:
+                cases.append({"kind": "kernel", "op": op, "A": A, "B": B, "layoutA": "readonly", "layoutB": "readonly"})
     # random longer inputs, biased to shared elements / touching ends / nested ranges
     n = 2500 if tier == "quick" else 40000
     for _ in range(n):
@@ -207,7 +217,10 @@ def execute(cases, mod, asan_log=None, guard=None, progress=None):
             return base[:len(x)][::-1]
         if guard is not None:
             return guard.place(x)
-        return np.array(x, dtype=np.uint32)
+        a = np.array(x, dtype=np.uint32)
+        if layout == "readonly":
+            a.flags.writeable = False          # row ids loaded from an INDX file sit in a read-only mapping
+        return a
 
     kern = {"inter": mod.set_intersect_merge_np, "union": mod.set_union_merge_np, "diff": mod.set_difference_merge_np}
     wrap = {"inter": mod.intersection, "union": mod.union, "diff": mod.difference}
@@ -242,10 +255,11 @@ def execute(cases, mod, asan_log=None, guard=None, progress=None):
                 ret = kern[c["op"]](arr(c["A"], c.get("layoutA", "contig")), arr(c["B"], c.get("layoutB", "contig")))
             elif c["kind"] == "wrapper":
                 ins = list(c["a"] or []) + list(c["b"] or [])
-                ret = wrap[c["op"]](arr(c["a"]), arr(c["b"]), **c.get("flags", {}))
+                lay = "readonly" if c.get("ro") else "contig"
+                ret = wrap[c["op"]](arr(c["a"], lay), arr(c["b"], lay), **c.get("flags", {}))
             else:
                 ins = [x for a in c["L"] for x in a]
-                ret = mod.set_union_merge_many([arr(a) for a in c["L"]])
+                ret = mod.set_union_merge_many([arr(a, "readonly" if c.get("ro") else "contig") for a in c["L"]])
         except IndexError as e:
             ev["oob"] = "bounds" in str(e).lower()
             ev["exc"] = not ev["oob"]
